@@ -175,6 +175,31 @@ func Standalone(lines []string, o *Obligation, withModel bool, logic string) str
 	fmt.Fprintf(&sb, "(assert (not %s))\n(check-sat)\n", o.Goal)
 	if withModel && len(o.Ask) > 0 {
 		fmt.Fprintf(&sb, "(get-value (%s))\n", strings.Join(o.Ask, " "))
+	} else if withModel {
+		// no terms were asked for: the values of the function's parameters (and their lengths) describe the refuting call
+		var ps []string
+		for i := 0; i < o.At && i < len(lines) && len(ps) < 24; i++ {
+			l := lines[i]
+			if !strings.HasPrefix(l, "(declare-const p_") {
+				continue
+			}
+			f := strings.Fields(l)
+			if len(f) < 3 {
+				continue
+			}
+			name, sort := f[1], strings.TrimSuffix(strings.Join(f[2:], " "), ")")
+			switch sort {
+			case "Int", "Bool":
+				ps = append(ps, name)
+			case "Sl":
+				ps = append(ps, "(sl-len "+name+")")
+			case "Obj":
+				ps = append(ps, "(o-tag "+name+")", "(o-int "+name+")")
+			}
+		}
+		if len(ps) > 0 {
+			fmt.Fprintf(&sb, "(get-value (%s))\n", strings.Join(ps, " "))
+		}
 	}
 	return sb.String()
 }
